@@ -53,6 +53,14 @@ def cases(tier, rng):
         cs.append(mk(0, "none", ups, ["wait -3", "conn", "conn", "conn", "conn"], "together"))
         cs.append(mk(0, "none", ups, ["conn", "cut", "wait -3", "conn", "conn", "conn", "conn"], "together-after-loss"))
         cs.append(mk(0, "none", ups, ["conn", "conn", "cut", "wait -4", "conn", "conn", "conn", "conn", "cut", "wait -2", "conn", "conn"], "together-after-loss"))
+    # the server goes away and comes back (implementation only): while it is away every local connection fails in bounded time -
+    # none hangs - and once it is back the next one establishes a new session
+    for ups in (["oksecure"], ["refused", "okinsecure"]):
+        line_ops = ["conn", "wait -1000", "conn", "conn", "wait -1001", "conn", "conn"]
+        c = mk(0, "none", ups, line_ops, "server-away")
+        c["model"] = False
+        c["tags"]["away"] = True
+        cs.append(c)
     for fwd in ("ok", "refused"):
         for ups in (["oksecure"], ["refused", "okinsecure"], ["refused"]):
             cs.append(mk(0, fwd, ups, ["conn", "conn"], "forward"))
@@ -93,6 +101,13 @@ def oracle(case, impl):
     phys = [int(x) for x in p[i + 1:]]
     firstgood = next((k for k, b in enumerate(ups) if good(must, b)), None)
     out = []
+    if case.get("tags", {}).get("away"):
+        kinds = [k for k, _ in res]
+        if "hang" in kinds:
+            return [("unbounded;server-away", "a local connection neither connected nor failed while the server was away or after it came back: " + impl)]
+        if kinds[0] != "up" or kinds[1:3] != ["fail", "fail"] or kinds[3:] != ["up", "up"]:
+            return [("no-reconnect;server-away", "expected: connected, failed twice while the server was away, connected twice after it came back; got " + impl)]
+        return []
     conns = [o for o in ops if o == "conn"]
     if len(res) != len(conns):
         return [("crash", "observation count mismatch: " + impl[:200])]
